@@ -13,7 +13,7 @@ from props.C07 import gen_sel, _py_sel
 
 REQUIRED_THEOREMS = ['Usid.C20.read_frame', 'Usid.C20.history_independent_reads', 'Usid.C20.write_refused',
                      'Usid.C20.ro_never_changes', 'Usid.C20.rw_write_changes', 'Usid.C20.table_functional']
-RULE = ('[also: a process started on a read-only file that already holds its complete results] [also: every file holds a results group whose source reference is stale] [also: every file holds a dataset that is a Main dataset but for the labels / units of one ancillary] [also: a TARGET group in another file - results group, process, empty dataset written to it and look-ups in it - under every combination of open modes of the source and target files] generator files (a Main dataset with 1-3 dimensions per side, its ancillaries, 0-2 groups of earlier results '
+RULE = ('[also: a Process merely CONSTRUCTED on a writable file whose earlier results carry two disagreeing progress records] [also: a process started on a read-only file that already holds its complete results] [also: every file holds a results group whose source reference is stale] [also: every file holds a dataset that is a Main dataset but for the labels / units of one ancillary] [also: a TARGET group in another file - results group, process, empty dataset written to it and look-ups in it - under every combination of open modes of the source and target files] generator files (a Main dataset with 1-3 dimensions per side, its ancillaries, 0-2 groups of earlier results '
         'holding their own Main dataset, a decoy group, plain datasets) opened "r" and "r+"; random sequences (<= 8 '
         'quick, <= 20 thorough) of the 24 read-side operations with generated arguments; after EVERY operation the '
         'SHA-256 of the file on disk (read-only) and a canonical dump of every dataset and attribute through the open '
@@ -29,7 +29,9 @@ TRUSTED = ['that an operation emits no modifying h5py call is OBSERVED by tracin
 READ_OPS = ['check_if_main', 'wrap', 'repr', 'print_tree', 'get_all_main', 'find_dataset', 'find_results_groups',
             'check_for_old', 'check_for_matching_attrs', 'get_source_dataset', 'get_n_dim_form', 'reshape_to_n_dims',
             'slice', 'slice_2d', 'reduce_mem', 'get_unit_values', 'get_pos_values', 'get_spec_values', 'get_sort_order',
-            'get_dimensionality', 'getitem', 'labels_sizes', 'get_current_sorting']
+            'get_dimensionality', 'getitem', 'labels_sizes', 'get_current_sorting',
+            # constructing a Process looks earlier results up (it is compute() that writes); refused on read-only files
+            'process_construct']
 WRITE_OPS = ['create_indexed_group', 'create_results_group', 'write_ind_val_dsets', 'write_main_dataset',
              'create_empty_dataset', 'slice_to_dataset', 'reduce_to_file', 'link_as_main', 'write_reduced_anc_dsets',
              'process_init', 'copy_main_attributes', 'write_book_keeping_attrs', 'write_sidpy_dataset']
@@ -186,6 +188,12 @@ def _make_file(inp, path):
             for key, v in (PARMS if k == 0 else {'p': 2, 'q': 'text'}).items():
                 rg.attrs[key] = v
             gen.write_usid(rg, ds, name='Res')
+            if k == 0:
+                # an interrupted run's two progress records, which disagree (the attribute is written before the marks)
+                st = np.zeros(n, dtype=np.uint8)
+                st[0] = 1
+                rg.create_dataset('completed_positions', data=st)
+                rg.attrs['last_pixel'] = n
         decoy = g.create_group('main-Fitting_000')
         decoy.attrs['p'] = 1
         if inp.get('done_proc'):
@@ -373,6 +381,14 @@ def _do(op, cx, inp):
     if name == 'check_for_matching_attrs':
         tgt = g['main-Fit_000'] if 'main-Fit_000' in g else g['main-Fitting_000']
         return bool(hu.check_for_matching_attrs(tgt, new_parms=op['parms']))
+    if name == 'process_construct':
+        if f.mode == 'r':
+            return 'refused-by-design'
+        from procs import make_proc_class
+        import io as _io
+        with contextlib.redirect_stdout(_io.StringIO()):
+            p = make_proc_class()(main, process_name='Fit', parms=dict(PARMS))
+        return [sorted(x.name for x in p.duplicate_h5_groups), sorted(x.name for x in p.partial_h5_groups)]
     if name == 'get_source_dataset':
         stale = _dig(hu.get_source_dataset(g['main-Old_000']))
         if 'main-Fit_000' not in g:
@@ -582,8 +598,8 @@ def run_impl(inp, work):
     if out['final_dump_same']:
         with h5py.File(path, 'r') as f3:
             for op, fl, rec in zip(inp['ops'], flags, out['ops']):
-                if op['name'] in WRITE_OPS or op['name'] == 'toggle_sorting':
-                    continue
+                if op['name'] in WRITE_OPS or op['name'] in ('toggle_sorting', 'process_construct'):
+                    continue        # (a Process cannot be constructed on the read-only handle used for the recomputation)
                 cx2 = Ctx(f3, fl)
                 _run_op({'name': 'wrap'}, cx2, inp)
                 rec['fresh'] = _run_op(op, cx2, inp)
